@@ -115,6 +115,13 @@ CHECKS = {
             'shuffled / geo-split / extra-unassigned layouts must give the same posterior; every summary column (estimate, '
             'precision, lower, upper, scale, probability, echoes, report rows) is checked for random level / tails / '
             'threshold / rescale; TBRMMDiagnostics.tbrfit must agree with the last-day estimate and half-width.', '§5 C06'),
+    'C07': ('reference-model monitor (closed-form response posterior / observed incremental cost) + determinism and scale-equivariance run pairs',
+            'On generated fixed-cost and variable-cost experiment frames the real TBRiROAS.summary is checked: fixed-cost '
+            'estimate and bounds against the closed-form response posterior divided by the incremental cost, incremental '
+            'response bounds = iROAS bounds x cost, probability, scenario label against the zero-cost predicate; variable-cost '
+            'reports must be identical for equal random_state and keep lower <= estimate <= upper; scaling cost by a and '
+            'response by b (powers of two) must scale iROAS figures by b/a and leave probability and relative lift unchanged.',
+            '§5 C07'),
 }
 
 NOT_YET = {}
